@@ -140,7 +140,7 @@ t_fin:  txdone := TRUE;
 }
 
 fair process (rx = "rx")
-variables rmsg = [kind |-> "none"], re = NoE, px = NoE;
+variables rmsg = [kind |-> "none"], re = NoE, px = NoE, rbuf = <<>>;
 {
 r_loop: while (running) {
 r_clean:   active := [k \in Keys |-> IF active[k] \in cleanup THEN NoE ELSE active[k]];
@@ -161,11 +161,21 @@ r_match:   re := active[rmsg.key];
            active[rmsg.key] := NoE;
            if (re = NoE) { ReleaseLock("rx"); goto r_loop };
 r_set:     reply[re] := rmsg.gid; evset[re] := TRUE;
-r_drain:   while (pending # <<>>) {
-              px := Head(pending); pending := Tail(pending);
-r_dput:       txq := Append(txq, px)
+r_drain:   if (UseLock) {
+              \* repaired design: take the parked requests under the lock, re-queue them after releasing it
+              rbuf := pending; pending := <<>>;
+              ReleaseLock("rx");
+r_requeue:    while (rbuf # <<>>) {
+                 px := Head(rbuf); rbuf := Tail(rbuf);
+                 txq := Append(txq, px)
+              }
+           } else {
+r_drain2:     while (pending # <<>>) {
+                 px := Head(pending); pending := Tail(pending);
+r_dput:          txq := Append(txq, px)
+              }
            };
-           ReleaseLock("rx");
+r_next:    skip;
         };
 r_exit: rxh := FALSE;
         call disconnect(FALSE);
@@ -226,13 +236,13 @@ VARIABLES pc, txq, pending, active, cleanup, running, shut, ioObj, connOpen,
 AllPassed == passed = Callers
 Waiting(i) == pc[i] = "c_wait" /\ ~evset[i]
 
-VARIABLES sh, te, rmsg, re, px, pr
+VARIABLES sh, te, rmsg, re, px, rbuf, pr
 
 vars == << pc, txq, pending, active, cleanup, running, shut, ioObj, connOpen, 
            txh, rxh, txdone, rxdone, evset, reply, c2p, p2c, res, got, age, 
            passed, rxTO, noact, pinged, nupd, lock, sent, answered, ignored, 
            lost, stalePark, discarded, raisedBy, stack, sh, te, rmsg, re, px, 
-           pr >>
+           rbuf, pr >>
 
 ProcSet == (Callers) \cup {"tx"} \cup {"rx"} \cup {"peer"} \cup {"user"} \cup {"clock"}
 
@@ -277,6 +287,7 @@ Init == (* Global variables *)
         /\ rmsg = [kind |-> "none"]
         /\ re = NoE
         /\ px = NoE
+        /\ rbuf = <<>>
         (* Process peer *)
         /\ pr = NoE
         /\ stack = [self \in ProcSet |-> << >>]
@@ -299,7 +310,7 @@ d_run(self) == /\ pc[self] = "d_run"
                                p2c, res, got, age, passed, rxTO, noact, pinged, 
                                nupd, lock, sent, answered, ignored, lost, 
                                stalePark, discarded, raisedBy, stack, sh, te, 
-                               rmsg, re, px, pr >>
+                               rmsg, re, px, rbuf, pr >>
 
 d_drain(self) == /\ pc[self] = "d_drain"
                  /\ IF Release
@@ -314,7 +325,7 @@ d_drain(self) == /\ pc[self] = "d_drain"
                                  reply, c2p, p2c, res, got, age, passed, rxTO, 
                                  noact, pinged, nupd, lock, sent, answered, 
                                  ignored, lost, stalePark, raisedBy, stack, sh, 
-                                 te, rmsg, re, px, pr >>
+                                 te, rmsg, re, px, rbuf, pr >>
 
 d_iosh(self) == /\ pc[self] = "d_iosh"
                 /\ IF ioObj
@@ -331,7 +342,7 @@ d_iosh(self) == /\ pc[self] = "d_iosh"
                                 c2p, p2c, res, got, age, passed, rxTO, noact, 
                                 pinged, nupd, lock, sent, answered, ignored, 
                                 stalePark, discarded, raisedBy, stack, sh, te, 
-                                rmsg, re, px, pr >>
+                                rmsg, re, px, rbuf, pr >>
 
 d_txchk(self) == /\ pc[self] = "d_txchk"
                  /\ IF txh
@@ -342,7 +353,8 @@ d_txchk(self) == /\ pc[self] = "d_txchk"
                                  evset, reply, c2p, p2c, res, got, age, passed, 
                                  rxTO, noact, pinged, nupd, lock, sent, 
                                  answered, ignored, lost, stalePark, discarded, 
-                                 raisedBy, stack, sh, te, rmsg, re, px, pr >>
+                                 raisedBy, stack, sh, te, rmsg, re, px, rbuf, 
+                                 pr >>
 
 d_txput(self) == /\ pc[self] = "d_txput"
                  /\ txq' = Append(txq, Stop)
@@ -352,7 +364,8 @@ d_txput(self) == /\ pc[self] = "d_txput"
                                  evset, reply, c2p, p2c, res, got, age, passed, 
                                  rxTO, noact, pinged, nupd, lock, sent, 
                                  answered, ignored, lost, stalePark, discarded, 
-                                 raisedBy, stack, sh, te, rmsg, re, px, pr >>
+                                 raisedBy, stack, sh, te, rmsg, re, px, rbuf, 
+                                 pr >>
 
 d_txjoin(self) == /\ pc[self] = "d_txjoin"
                   /\ IF ~SafeJoin /\ ~txh
@@ -365,7 +378,8 @@ d_txjoin(self) == /\ pc[self] = "d_txjoin"
                                   evset, reply, c2p, p2c, res, got, age, 
                                   passed, rxTO, noact, pinged, nupd, lock, 
                                   sent, answered, ignored, lost, stalePark, 
-                                  discarded, stack, sh, te, rmsg, re, px, pr >>
+                                  discarded, stack, sh, te, rmsg, re, px, rbuf, 
+                                  pr >>
 
 d_txwait(self) == /\ pc[self] = "d_txwait"
                   /\ txdone
@@ -376,7 +390,7 @@ d_txwait(self) == /\ pc[self] = "d_txwait"
                                   passed, rxTO, noact, pinged, nupd, lock, 
                                   sent, answered, ignored, lost, stalePark, 
                                   discarded, raisedBy, stack, sh, te, rmsg, re, 
-                                  px, pr >>
+                                  px, rbuf, pr >>
 
 d_txclr(self) == /\ pc[self] = "d_txclr"
                  /\ txh' = FALSE
@@ -386,7 +400,7 @@ d_txclr(self) == /\ pc[self] = "d_txclr"
                                  reply, c2p, p2c, res, got, age, passed, rxTO, 
                                  noact, pinged, nupd, lock, sent, answered, 
                                  ignored, lost, stalePark, discarded, raisedBy, 
-                                 stack, sh, te, rmsg, re, px, pr >>
+                                 stack, sh, te, rmsg, re, px, rbuf, pr >>
 
 d_rxchk(self) == /\ pc[self] = "d_rxchk"
                  /\ IF rxh
@@ -397,7 +411,8 @@ d_rxchk(self) == /\ pc[self] = "d_rxchk"
                                  evset, reply, c2p, p2c, res, got, age, passed, 
                                  rxTO, noact, pinged, nupd, lock, sent, 
                                  answered, ignored, lost, stalePark, discarded, 
-                                 raisedBy, stack, sh, te, rmsg, re, px, pr >>
+                                 raisedBy, stack, sh, te, rmsg, re, px, rbuf, 
+                                 pr >>
 
 d_rxjoin(self) == /\ pc[self] = "d_rxjoin"
                   /\ IF ~SafeJoin /\ ~rxh
@@ -410,7 +425,8 @@ d_rxjoin(self) == /\ pc[self] = "d_rxjoin"
                                   evset, reply, c2p, p2c, res, got, age, 
                                   passed, rxTO, noact, pinged, nupd, lock, 
                                   sent, answered, ignored, lost, stalePark, 
-                                  discarded, stack, sh, te, rmsg, re, px, pr >>
+                                  discarded, stack, sh, te, rmsg, re, px, rbuf, 
+                                  pr >>
 
 d_rxwait(self) == /\ pc[self] = "d_rxwait"
                   /\ rxdone
@@ -421,7 +437,7 @@ d_rxwait(self) == /\ pc[self] = "d_rxwait"
                                   passed, rxTO, noact, pinged, nupd, lock, 
                                   sent, answered, ignored, lost, stalePark, 
                                   discarded, raisedBy, stack, sh, te, rmsg, re, 
-                                  px, pr >>
+                                  px, rbuf, pr >>
 
 d_rxclr(self) == /\ pc[self] = "d_rxclr"
                  /\ rxh' = FALSE
@@ -431,7 +447,7 @@ d_rxclr(self) == /\ pc[self] = "d_rxclr"
                                  reply, c2p, p2c, res, got, age, passed, rxTO, 
                                  noact, pinged, nupd, lock, sent, answered, 
                                  ignored, lost, stalePark, discarded, raisedBy, 
-                                 stack, sh, te, rmsg, re, px, pr >>
+                                 stack, sh, te, rmsg, re, px, rbuf, pr >>
 
 d_io(self) == /\ pc[self] = "d_io"
               /\ ioObj' = FALSE
@@ -441,7 +457,7 @@ d_io(self) == /\ pc[self] = "d_io"
                               c2p, p2c, res, got, age, passed, rxTO, noact, 
                               pinged, nupd, lock, sent, answered, ignored, 
                               lost, stalePark, discarded, raisedBy, stack, sh, 
-                              te, rmsg, re, px, pr >>
+                              te, rmsg, re, px, rbuf, pr >>
 
 d_act(self) == /\ pc[self] = "d_act"
                /\ evset' = [e \in Entries |-> evset[e] \/ (\E k \in Keys : active[k] = e)]
@@ -452,7 +468,7 @@ d_act(self) == /\ pc[self] = "d_act"
                                p2c, res, got, age, passed, rxTO, noact, pinged, 
                                nupd, lock, sent, answered, ignored, lost, 
                                stalePark, discarded, raisedBy, stack, sh, te, 
-                               rmsg, re, px, pr >>
+                               rmsg, re, px, rbuf, pr >>
 
 d_pend(self) == /\ pc[self] = "d_pend"
                 /\ evset' = [e \in Entries |-> evset[e] \/ (\E n \in 1 .. Len(pending) : pending[n] = e)]
@@ -463,7 +479,7 @@ d_pend(self) == /\ pc[self] = "d_pend"
                                 p2c, res, got, age, passed, rxTO, noact, 
                                 pinged, nupd, lock, sent, answered, ignored, 
                                 lost, stalePark, discarded, raisedBy, stack, 
-                                sh, te, rmsg, re, px, pr >>
+                                sh, te, rmsg, re, px, rbuf, pr >>
 
 d_ret(self) == /\ pc[self] = "d_ret"
                /\ pc' = [pc EXCEPT ![self] = Head(stack[self]).pc]
@@ -474,7 +490,7 @@ d_ret(self) == /\ pc[self] = "d_ret"
                                evset, reply, c2p, p2c, res, got, age, passed, 
                                rxTO, noact, pinged, nupd, lock, sent, answered, 
                                ignored, lost, stalePark, discarded, raisedBy, 
-                               te, rmsg, re, px, pr >>
+                               te, rmsg, re, px, rbuf, pr >>
 
 d_raise(self) == /\ pc[self] = "d_raise"
                  /\ pc' = [pc EXCEPT ![self] = Head(stack[self]).pc]
@@ -485,7 +501,7 @@ d_raise(self) == /\ pc[self] = "d_raise"
                                  evset, reply, c2p, p2c, res, got, age, passed, 
                                  rxTO, noact, pinged, nupd, lock, sent, 
                                  answered, ignored, lost, stalePark, discarded, 
-                                 raisedBy, te, rmsg, re, px, pr >>
+                                 raisedBy, te, rmsg, re, px, rbuf, pr >>
 
 disconnect(self) == d_run(self) \/ d_drain(self) \/ d_iosh(self)
                        \/ d_txchk(self) \/ d_txput(self) \/ d_txjoin(self)
@@ -502,7 +518,7 @@ c_conn(self) == /\ pc[self] = "c_conn"
                                 evset, reply, c2p, p2c, res, got, age, rxTO, 
                                 noact, pinged, nupd, lock, sent, answered, 
                                 ignored, lost, stalePark, discarded, raisedBy, 
-                                stack, sh, te, rmsg, re, px, pr >>
+                                stack, sh, te, rmsg, re, px, rbuf, pr >>
 
 c_put(self) == /\ pc[self] = "c_put"
                /\ txq' = Append(txq, self)
@@ -512,7 +528,7 @@ c_put(self) == /\ pc[self] = "c_put"
                                reply, c2p, p2c, res, got, age, passed, rxTO, 
                                noact, pinged, nupd, lock, sent, answered, 
                                ignored, lost, stalePark, discarded, raisedBy, 
-                               stack, sh, te, rmsg, re, px, pr >>
+                               stack, sh, te, rmsg, re, px, rbuf, pr >>
 
 c_chk(self) == /\ pc[self] = "c_chk"
                /\ IF Recheck /\ ~running
@@ -525,7 +541,7 @@ c_chk(self) == /\ pc[self] = "c_chk"
                                reply, c2p, p2c, res, got, age, passed, rxTO, 
                                noact, pinged, nupd, lock, sent, answered, 
                                ignored, lost, stalePark, discarded, raisedBy, 
-                               stack, sh, te, rmsg, re, px, pr >>
+                               stack, sh, te, rmsg, re, px, rbuf, pr >>
 
 c_wait(self) == /\ pc[self] = "c_wait"
                 /\ evset[self] \/ age[self] >= T
@@ -545,7 +561,7 @@ c_wait(self) == /\ pc[self] = "c_wait"
                                 reply, c2p, p2c, age, passed, rxTO, noact, 
                                 pinged, nupd, lock, sent, answered, ignored, 
                                 lost, stalePark, discarded, raisedBy, stack, 
-                                sh, te, rmsg, re, px, pr >>
+                                sh, te, rmsg, re, px, rbuf, pr >>
 
 caller(self) == c_conn(self) \/ c_put(self) \/ c_chk(self) \/ c_wait(self)
 
@@ -557,7 +573,8 @@ t_loop == /\ pc["tx"] = "t_loop"
                           connOpen, txh, rxh, txdone, rxdone, evset, reply, 
                           c2p, p2c, res, got, age, passed, rxTO, noact, pinged, 
                           nupd, lock, sent, answered, ignored, lost, stalePark, 
-                          discarded, raisedBy, stack, sh, te, rmsg, re, px, pr >>
+                          discarded, raisedBy, stack, sh, te, rmsg, re, px, 
+                          rbuf, pr >>
 
 t_get == /\ pc["tx"] = "t_get"
          /\ txq # <<>>
@@ -570,7 +587,8 @@ t_get == /\ pc["tx"] = "t_get"
                          connOpen, txh, rxh, txdone, rxdone, evset, reply, c2p, 
                          p2c, res, got, age, passed, rxTO, noact, pinged, nupd, 
                          lock, sent, answered, ignored, lost, stalePark, 
-                         discarded, raisedBy, stack, sh, rmsg, re, px, pr >>
+                         discarded, raisedBy, stack, sh, rmsg, re, px, rbuf, 
+                         pr >>
 
 t_lock == /\ pc["tx"] = "t_lock"
           /\ IF UseLock
@@ -583,7 +601,8 @@ t_lock == /\ pc["tx"] = "t_lock"
                           connOpen, txh, rxh, txdone, rxdone, evset, reply, 
                           c2p, p2c, res, got, age, passed, rxTO, noact, pinged, 
                           nupd, sent, answered, ignored, lost, stalePark, 
-                          discarded, raisedBy, stack, sh, te, rmsg, re, px, pr >>
+                          discarded, raisedBy, stack, sh, te, rmsg, re, px, 
+                          rbuf, pr >>
 
 t_chk == /\ pc["tx"] = "t_chk"
          /\ IF active[Key(te)] # NoE
@@ -593,7 +612,8 @@ t_chk == /\ pc["tx"] = "t_chk"
                          connOpen, txh, rxh, txdone, rxdone, evset, reply, c2p, 
                          p2c, res, got, age, passed, rxTO, noact, pinged, nupd, 
                          lock, sent, answered, ignored, lost, stalePark, 
-                         discarded, raisedBy, stack, sh, te, rmsg, re, px, pr >>
+                         discarded, raisedBy, stack, sh, te, rmsg, re, px, 
+                         rbuf, pr >>
 
 t_park == /\ pc["tx"] = "t_park"
           /\ pending' = Append(pending, te)
@@ -610,7 +630,7 @@ t_park == /\ pc["tx"] = "t_park"
                           txh, rxh, txdone, rxdone, evset, reply, c2p, p2c, 
                           res, got, age, passed, rxTO, noact, pinged, nupd, 
                           sent, answered, ignored, lost, discarded, raisedBy, 
-                          stack, sh, te, rmsg, re, px, pr >>
+                          stack, sh, te, rmsg, re, px, rbuf, pr >>
 
 t_reg == /\ pc["tx"] = "t_reg"
          /\ active' = [active EXCEPT ![Key(te)] = te]
@@ -623,7 +643,7 @@ t_reg == /\ pc["tx"] = "t_reg"
                          txh, rxh, txdone, rxdone, evset, reply, c2p, p2c, res, 
                          got, age, passed, rxTO, noact, pinged, nupd, sent, 
                          answered, ignored, lost, stalePark, discarded, 
-                         raisedBy, stack, sh, te, rmsg, re, px, pr >>
+                         raisedBy, stack, sh, te, rmsg, re, px, rbuf, pr >>
 
 t_send == /\ pc["tx"] = "t_send"
           /\ IF connOpen
@@ -636,7 +656,8 @@ t_send == /\ pc["tx"] = "t_send"
                           connOpen, txh, rxh, txdone, rxdone, evset, reply, 
                           p2c, res, got, age, passed, rxTO, noact, pinged, 
                           nupd, lock, answered, ignored, lost, stalePark, 
-                          discarded, raisedBy, stack, sh, te, rmsg, re, px, pr >>
+                          discarded, raisedBy, stack, sh, te, rmsg, re, px, 
+                          rbuf, pr >>
 
 t_end == /\ pc["tx"] = "t_end"
          /\ txh' = FALSE
@@ -650,7 +671,7 @@ t_end == /\ pc["tx"] = "t_end"
                          connOpen, rxh, txdone, rxdone, evset, reply, c2p, p2c, 
                          res, got, age, passed, rxTO, noact, pinged, nupd, 
                          lock, sent, answered, ignored, lost, stalePark, 
-                         discarded, raisedBy, te, rmsg, re, px, pr >>
+                         discarded, raisedBy, te, rmsg, re, px, rbuf, pr >>
 
 t_fin == /\ pc["tx"] = "t_fin"
          /\ txdone' = TRUE
@@ -659,7 +680,8 @@ t_fin == /\ pc["tx"] = "t_fin"
                          connOpen, txh, rxh, rxdone, evset, reply, c2p, p2c, 
                          res, got, age, passed, rxTO, noact, pinged, nupd, 
                          lock, sent, answered, ignored, lost, stalePark, 
-                         discarded, raisedBy, stack, sh, te, rmsg, re, px, pr >>
+                         discarded, raisedBy, stack, sh, te, rmsg, re, px, 
+                         rbuf, pr >>
 
 tx == t_loop \/ t_get \/ t_lock \/ t_chk \/ t_park \/ t_reg \/ t_send
          \/ t_end \/ t_fin
@@ -672,7 +694,8 @@ r_loop == /\ pc["rx"] = "r_loop"
                           connOpen, txh, rxh, txdone, rxdone, evset, reply, 
                           c2p, p2c, res, got, age, passed, rxTO, noact, pinged, 
                           nupd, lock, sent, answered, ignored, lost, stalePark, 
-                          discarded, raisedBy, stack, sh, te, rmsg, re, px, pr >>
+                          discarded, raisedBy, stack, sh, te, rmsg, re, px, 
+                          rbuf, pr >>
 
 r_clean == /\ pc["rx"] = "r_clean"
            /\ active' = [k \in Keys |-> IF active[k] \in cleanup THEN NoE ELSE active[k]]
@@ -682,7 +705,7 @@ r_clean == /\ pc["rx"] = "r_clean"
                            rxh, txdone, rxdone, evset, reply, c2p, p2c, res, 
                            got, age, passed, rxTO, noact, pinged, nupd, lock, 
                            sent, answered, ignored, lost, stalePark, discarded, 
-                           raisedBy, stack, sh, te, rmsg, re, px, pr >>
+                           raisedBy, stack, sh, te, rmsg, re, px, rbuf, pr >>
 
 r_read == /\ pc["rx"] = "r_read"
           /\ p2c # <<>> \/ ~connOpen \/ rxTO
@@ -705,7 +728,7 @@ r_read == /\ pc["rx"] = "r_read"
                           connOpen, txh, rxh, txdone, rxdone, evset, reply, 
                           c2p, res, got, age, passed, pinged, nupd, lock, sent, 
                           answered, ignored, lost, stalePark, discarded, 
-                          raisedBy, stack, sh, te, re, px, pr >>
+                          raisedBy, stack, sh, te, re, px, rbuf, pr >>
 
 r_cont == /\ pc["rx"] = "r_cont"
           /\ pc' = [pc EXCEPT !["rx"] = "r_loop"]
@@ -713,7 +736,8 @@ r_cont == /\ pc["rx"] = "r_cont"
                           connOpen, txh, rxh, txdone, rxdone, evset, reply, 
                           c2p, p2c, res, got, age, passed, rxTO, noact, pinged, 
                           nupd, lock, sent, answered, ignored, lost, stalePark, 
-                          discarded, raisedBy, stack, sh, te, rmsg, re, px, pr >>
+                          discarded, raisedBy, stack, sh, te, rmsg, re, px, 
+                          rbuf, pr >>
 
 r_ping == /\ pc["rx"] = "r_ping"
           /\ pinged' = TRUE
@@ -723,7 +747,8 @@ r_ping == /\ pc["rx"] = "r_ping"
                           connOpen, txh, rxh, txdone, rxdone, evset, reply, 
                           c2p, p2c, res, got, age, passed, rxTO, noact, nupd, 
                           lock, sent, answered, ignored, lost, stalePark, 
-                          discarded, raisedBy, stack, sh, te, rmsg, re, px, pr >>
+                          discarded, raisedBy, stack, sh, te, rmsg, re, px, 
+                          rbuf, pr >>
 
 r_upd == /\ pc["rx"] = "r_upd"
          /\ IF rmsg.kind = "update"
@@ -733,7 +758,8 @@ r_upd == /\ pc["rx"] = "r_upd"
                          connOpen, txh, rxh, txdone, rxdone, evset, reply, c2p, 
                          p2c, res, got, age, passed, rxTO, noact, pinged, nupd, 
                          lock, sent, answered, ignored, lost, stalePark, 
-                         discarded, raisedBy, stack, sh, te, rmsg, re, px, pr >>
+                         discarded, raisedBy, stack, sh, te, rmsg, re, px, 
+                         rbuf, pr >>
 
 r_lock == /\ pc["rx"] = "r_lock"
           /\ IF UseLock
@@ -746,7 +772,8 @@ r_lock == /\ pc["rx"] = "r_lock"
                           connOpen, txh, rxh, txdone, rxdone, evset, reply, 
                           c2p, p2c, res, got, age, passed, rxTO, noact, pinged, 
                           nupd, sent, answered, ignored, lost, stalePark, 
-                          discarded, raisedBy, stack, sh, te, rmsg, re, px, pr >>
+                          discarded, raisedBy, stack, sh, te, rmsg, re, px, 
+                          rbuf, pr >>
 
 r_match == /\ pc["rx"] = "r_match"
            /\ re' = active[rmsg.key]
@@ -764,7 +791,7 @@ r_match == /\ pc["rx"] = "r_match"
                            c2p, p2c, res, got, age, passed, rxTO, noact, 
                            pinged, nupd, sent, answered, ignored, lost, 
                            stalePark, discarded, raisedBy, stack, sh, te, rmsg, 
-                           px, pr >>
+                           px, rbuf, pr >>
 
 r_set == /\ pc["rx"] = "r_set"
          /\ reply' = [reply EXCEPT ![re] = rmsg.gid]
@@ -774,35 +801,74 @@ r_set == /\ pc["rx"] = "r_set"
                          connOpen, txh, rxh, txdone, rxdone, c2p, p2c, res, 
                          got, age, passed, rxTO, noact, pinged, nupd, lock, 
                          sent, answered, ignored, lost, stalePark, discarded, 
-                         raisedBy, stack, sh, te, rmsg, re, px, pr >>
+                         raisedBy, stack, sh, te, rmsg, re, px, rbuf, pr >>
 
 r_drain == /\ pc["rx"] = "r_drain"
-           /\ IF pending # <<>>
-                 THEN /\ px' = Head(pending)
-                      /\ pending' = Tail(pending)
-                      /\ pc' = [pc EXCEPT !["rx"] = "r_dput"]
-                      /\ lock' = lock
-                 ELSE /\ IF UseLock
+           /\ IF UseLock
+                 THEN /\ rbuf' = pending
+                      /\ pending' = <<>>
+                      /\ IF UseLock
                             THEN /\ lock' = "free"
                             ELSE /\ TRUE
                                  /\ lock' = lock
-                      /\ pc' = [pc EXCEPT !["rx"] = "r_loop"]
-                      /\ UNCHANGED << pending, px >>
+                      /\ pc' = [pc EXCEPT !["rx"] = "r_requeue"]
+                 ELSE /\ pc' = [pc EXCEPT !["rx"] = "r_drain2"]
+                      /\ UNCHANGED << pending, lock, rbuf >>
            /\ UNCHANGED << txq, active, cleanup, running, shut, ioObj, 
                            connOpen, txh, rxh, txdone, rxdone, evset, reply, 
                            c2p, p2c, res, got, age, passed, rxTO, noact, 
                            pinged, nupd, sent, answered, ignored, lost, 
                            stalePark, discarded, raisedBy, stack, sh, te, rmsg, 
-                           re, pr >>
+                           re, px, pr >>
+
+r_requeue == /\ pc["rx"] = "r_requeue"
+             /\ IF rbuf # <<>>
+                   THEN /\ px' = Head(rbuf)
+                        /\ rbuf' = Tail(rbuf)
+                        /\ txq' = Append(txq, px')
+                        /\ pc' = [pc EXCEPT !["rx"] = "r_requeue"]
+                   ELSE /\ pc' = [pc EXCEPT !["rx"] = "r_next"]
+                        /\ UNCHANGED << txq, px, rbuf >>
+             /\ UNCHANGED << pending, active, cleanup, running, shut, ioObj, 
+                             connOpen, txh, rxh, txdone, rxdone, evset, reply, 
+                             c2p, p2c, res, got, age, passed, rxTO, noact, 
+                             pinged, nupd, lock, sent, answered, ignored, lost, 
+                             stalePark, discarded, raisedBy, stack, sh, te, 
+                             rmsg, re, pr >>
+
+r_drain2 == /\ pc["rx"] = "r_drain2"
+            /\ IF pending # <<>>
+                  THEN /\ px' = Head(pending)
+                       /\ pending' = Tail(pending)
+                       /\ pc' = [pc EXCEPT !["rx"] = "r_dput"]
+                  ELSE /\ pc' = [pc EXCEPT !["rx"] = "r_next"]
+                       /\ UNCHANGED << pending, px >>
+            /\ UNCHANGED << txq, active, cleanup, running, shut, ioObj, 
+                            connOpen, txh, rxh, txdone, rxdone, evset, reply, 
+                            c2p, p2c, res, got, age, passed, rxTO, noact, 
+                            pinged, nupd, lock, sent, answered, ignored, lost, 
+                            stalePark, discarded, raisedBy, stack, sh, te, 
+                            rmsg, re, rbuf, pr >>
 
 r_dput == /\ pc["rx"] = "r_dput"
           /\ txq' = Append(txq, px)
-          /\ pc' = [pc EXCEPT !["rx"] = "r_drain"]
+          /\ pc' = [pc EXCEPT !["rx"] = "r_drain2"]
           /\ UNCHANGED << pending, active, cleanup, running, shut, ioObj, 
                           connOpen, txh, rxh, txdone, rxdone, evset, reply, 
                           c2p, p2c, res, got, age, passed, rxTO, noact, pinged, 
                           nupd, lock, sent, answered, ignored, lost, stalePark, 
-                          discarded, raisedBy, stack, sh, te, rmsg, re, px, pr >>
+                          discarded, raisedBy, stack, sh, te, rmsg, re, px, 
+                          rbuf, pr >>
+
+r_next == /\ pc["rx"] = "r_next"
+          /\ TRUE
+          /\ pc' = [pc EXCEPT !["rx"] = "r_loop"]
+          /\ UNCHANGED << txq, pending, active, cleanup, running, shut, ioObj, 
+                          connOpen, txh, rxh, txdone, rxdone, evset, reply, 
+                          c2p, p2c, res, got, age, passed, rxTO, noact, pinged, 
+                          nupd, lock, sent, answered, ignored, lost, stalePark, 
+                          discarded, raisedBy, stack, sh, te, rmsg, re, px, 
+                          rbuf, pr >>
 
 r_exit == /\ pc["rx"] = "r_exit"
           /\ rxh' = FALSE
@@ -816,7 +882,7 @@ r_exit == /\ pc["rx"] = "r_exit"
                           connOpen, txh, txdone, rxdone, evset, reply, c2p, 
                           p2c, res, got, age, passed, rxTO, noact, pinged, 
                           nupd, lock, sent, answered, ignored, lost, stalePark, 
-                          discarded, raisedBy, te, rmsg, re, px, pr >>
+                          discarded, raisedBy, te, rmsg, re, px, rbuf, pr >>
 
 r_fin == /\ pc["rx"] = "r_fin"
          /\ rxdone' = TRUE
@@ -825,10 +891,12 @@ r_fin == /\ pc["rx"] = "r_fin"
                          connOpen, txh, rxh, txdone, evset, reply, c2p, p2c, 
                          res, got, age, passed, rxTO, noact, pinged, nupd, 
                          lock, sent, answered, ignored, lost, stalePark, 
-                         discarded, raisedBy, stack, sh, te, rmsg, re, px, pr >>
+                         discarded, raisedBy, stack, sh, te, rmsg, re, px, 
+                         rbuf, pr >>
 
 rx == r_loop \/ r_clean \/ r_read \/ r_cont \/ r_ping \/ r_upd \/ r_lock
-         \/ r_match \/ r_set \/ r_drain \/ r_dput \/ r_exit \/ r_fin
+         \/ r_match \/ r_set \/ r_drain \/ r_requeue \/ r_drain2 \/ r_dput
+         \/ r_next \/ r_exit \/ r_fin
 
 p_loop == /\ pc["peer"] = "p_loop"
           /\ \/ /\ c2p # <<>> /\ connOpen
@@ -850,7 +918,7 @@ p_loop == /\ pc["peer"] = "p_loop"
                           txh, rxh, txdone, rxdone, evset, reply, res, got, 
                           age, passed, rxTO, noact, pinged, lock, sent, 
                           answered, ignored, stalePark, discarded, raisedBy, 
-                          stack, sh, te, rmsg, re, px >>
+                          stack, sh, te, rmsg, re, px, rbuf >>
 
 p_ans == /\ pc["peer"] = "p_ans"
          /\ \/ /\ IF connOpen
@@ -867,7 +935,7 @@ p_ans == /\ pc["peer"] = "p_ans"
                          connOpen, txh, rxh, txdone, rxdone, evset, reply, c2p, 
                          res, got, age, passed, rxTO, noact, pinged, nupd, 
                          lock, sent, lost, stalePark, discarded, raisedBy, 
-                         stack, sh, te, rmsg, re, px, pr >>
+                         stack, sh, te, rmsg, re, px, rbuf, pr >>
 
 peer == p_loop \/ p_ans
 
@@ -883,7 +951,7 @@ u_wait == /\ pc["user"] = "u_wait"
                           connOpen, txh, rxh, txdone, rxdone, evset, reply, 
                           c2p, p2c, res, got, age, passed, rxTO, noact, pinged, 
                           nupd, lock, sent, answered, ignored, lost, stalePark, 
-                          discarded, raisedBy, te, rmsg, re, px, pr >>
+                          discarded, raisedBy, te, rmsg, re, px, rbuf, pr >>
 
 u_ret == /\ pc["user"] = "u_ret"
          /\ TRUE
@@ -892,7 +960,8 @@ u_ret == /\ pc["user"] = "u_ret"
                          connOpen, txh, rxh, txdone, rxdone, evset, reply, c2p, 
                          p2c, res, got, age, passed, rxTO, noact, pinged, nupd, 
                          lock, sent, answered, ignored, lost, stalePark, 
-                         discarded, raisedBy, stack, sh, te, rmsg, re, px, pr >>
+                         discarded, raisedBy, stack, sh, te, rmsg, re, px, 
+                         rbuf, pr >>
 
 user == u_wait \/ u_ret
 
@@ -920,7 +989,7 @@ k_tick == /\ pc["clock"] = "k_tick"
                           connOpen, txh, rxh, txdone, rxdone, evset, reply, 
                           c2p, res, got, passed, noact, pinged, nupd, lock, 
                           sent, answered, ignored, lost, stalePark, discarded, 
-                          raisedBy, stack, sh, te, rmsg, re, px, pr >>
+                          raisedBy, stack, sh, te, rmsg, re, px, rbuf, pr >>
 
 clock == k_tick
 
